@@ -447,8 +447,34 @@ func runC11(r *Run) {
 		key := strings.Repeat("\U00020000", k)
 		inputs = append(inputs, `"/`+key+`" == 1`, `"/`+key+`" == 1 and b == 2 or c == 3`, `a == 1 or "/`+key+`" == 1`, "a == `"+strings.Repeat("é", 2*k)+"`", "a == 1 "+strings.Repeat("#", 10*k))
 	}
+	// every budget below N on a few inputs, each followed by an unlimited parse of other texts: what an aborted parse leaves
+	// behind must not show in the next result (verdict, step count and the text of the syntax error)
+	{
+		probes := []string{`name == "web" and`, "a == 1", "a ==", `x == "\q"`, "any a as x { x == 1", "((a == 1)"}
+		pristine := map[string]string{}
+		for _, p := range probes {
+			pristine[p] = parseObs([]byte(p), 0) + " | " + parseErrText([]byte(p), 0)
+		}
+		for _, s := range []string{`name == "web" and port != 80`, "not a == `r` or ( b.c[\"d\"] in x )", `any m as k, v { v matches "^a" and "/p/q" is empty }`, "a == 1.5 and b != -2 and c is not empty", `x == "\q" and y == "\q"`} {
+			var N uint64
+			fmt.Sscanf(parseObs([]byte(s), 0)[2:], "%d", &N)
+			for b := uint64(1); b < N; b++ {
+				o := parseObs([]byte(s), b)
+				r.Evaluations++
+				if want := fmt.Sprintf("R %d 1", b+1); o != want {
+					r.Violate("small-budget-not-exact", fmt.Sprintf("sweep|%s|%d", s, b), map[string]interface{}{"input": s, "N": N, "budget": b}, "expected "+want+" got "+truncate(o, 120))
+				}
+				p := probes[int(b)%len(probes)]
+				if got := parseObs([]byte(p), 0) + " | " + parseErrText([]byte(p), 0); got != pristine[p] {
+					r.Violate("aborted-parse-leaves-state", "sweep-state|"+s, map[string]interface{}{"aborted_input": s, "budget": b, "next_input": p}, "after the aborted parse: "+truncate(got, 200)+"; before: "+truncate(pristine[p], 200))
+				}
+			}
+			r.Seen("sweep|" + s)
+		}
+	}
 	for _, s := range inputs {
 		unl := parseObs([]byte(s), 0)
+		unlText := parseErrText([]byte(s), 0)
 		var N uint64
 		fmt.Sscanf(unl[2:], "%d", &N)
 		budgets := []uint64{1, 2, N / 2, N - 1, N, N + 1, 2 * N, uint64(len(s)) - 1, uint64(len(s)), uint64(len(s)) + 1, (N + uint64(len(s))) / 2}
@@ -475,6 +501,9 @@ func runC11(r *Run) {
 				if o != unl {
 					r.Violate("large-budget-changes-result", key, c2, "unlimited: "+truncate(unl, 120)+" limited: "+truncate(o, 120))
 				}
+				if t := parseErrText([]byte(s), b); t != unlText {
+					r.Violate("large-budget-changes-result", key+"|text", c2, "syntax error of the unlimited parse: "+truncate(unlText, 200)+"; limited: "+truncate(t, 200))
+				}
 			} else {
 				r.Count("budget<N")
 				want := fmt.Sprintf("R %d 1", b+1)
@@ -499,6 +528,10 @@ func runC11(r *Run) {
 				r.Violate("option-small-budget", key, c2, fmt.Sprintf("CreateEvaluator under budget %d < N=%d: err=%v", b, N, err))
 			}
 			r.Model(parseCmd("go", b, s), o, c2)
+		}
+		// the unlimited result is the same after the limited parses of this input
+		if o := parseObs([]byte(s), 0); o != unl || parseErrText([]byte(s), 0) != unlText {
+			r.Violate("aborted-parse-leaves-state", s, c, "the unlimited parse repeated after the limited ones: "+truncate(o, 120)+" / "+truncate(parseErrText([]byte(s), 0), 160))
 		}
 		// budget 0 = unlimited through the public option
 		_, e0 := bexpr.CreateEvaluator(s, bexpr.WithMaxExpressions(0))
